@@ -25,13 +25,13 @@ from .. import tlc, tlaval, paths
 from ..report import Report
 
 KEEP = 0
-SEED_SMALL, SEED_BIG = 7, 20170519
+SEED_SMALL, SEED_BIG, SEED_NEAR = 7, 20170519, 20170521   # NEAR: within numpy.isclose of BIG
 VAR = {1: 1.0, 2: 2.0}
 LEN = {1: 1.0, 2: 2.0}
 ANIS = {1: 1.0, 2: 0.5}
 ANG = {0: 0.0, 1: 0.4}
 NUG = {0: 0.0, 1: 0.5}
-_SHARED = {SEED_SMALL: SEED_SMALL, SEED_BIG: SEED_BIG}
+_SHARED = {SEED_SMALL: SEED_SMALL, SEED_BIG: SEED_BIG, SEED_NEAR: SEED_NEAR}
 
 
 def seed_obj(v, fresh):
@@ -49,7 +49,7 @@ def mc_text(name, kind, dim, size, seed_compare="value", dk_refresh=True):
     anis = "{1}" if dim == 1 else "{1, 2}"
     ang = "{0}" if dim == 1 else ("{0, 1}" if not small else "{0, 1}")
     defs = {
-        "Kind": '"%s"' % kind, "SeedVals": "{%d, %d}" % (SEED_SMALL, SEED_BIG), "SmallSeeds": "{%d}" % SEED_SMALL,
+        "Kind": '"%s"' % kind, "SeedVals": "{%d, %d, %d}" % (SEED_SMALL, SEED_BIG, SEED_NEAR), "SmallSeeds": "{%d}" % SEED_SMALL,
         "VarVals": "{1, 2}", "LenVals": "{1, 2}", "AnisVals": anis, "AngVals": ang, "NugVals": "{0, 1}",
         "ModeNos": "{4, 6}", "Periods": "{1, 2}" if kind == "Fourier" else "{1}",
         "SeedCompare": '"%s"' % seed_compare, "DkRefresh": "TRUE" if dk_refresh else "FALSE",
@@ -144,9 +144,9 @@ class Real:
 _REF = {}
 
 
-def reference(kind, cls, dim, want, X):
-    """Field of a freshly constructed SRF with the settings `want` (nugget-free)."""
-    key = (kind, cls, dim, tlaval.freeze(want))
+def reference(kind, cls, dim, want, X, tag="grid"):
+    """Field of a freshly constructed SRF with the settings `want` (nugget-free) at the positions X."""
+    key = (kind, cls, dim, tlaval.freeze(want), tag)
     if key not in _REF:
         st = {"seed": want["seed"], "modeNo": want["modeNo"], "period": want["period"],
               "pm": {"var": want["var"], "len": want["len"], "anis": want["anis"], "ang": want["ang"], "nug": 0}}
@@ -211,7 +211,7 @@ def replay(col, kind, cls, dim, beh, origin, locality=True):
                                       % (cls, dim, bad[0], bad[1], [tlaval.to_tla(o) for o in hist[-3:]], bad[2]), rp)
                         return ncalls
                 if locality and not fresh:
-                    bad = arrangements(r, f, X, dim, scale, vec)
+                    bad = arrangements(r, f, X, dim, scale, vec, kind, cls, want)
                     if bad:
                         col.violation("%s:locality:%s" % (kind, bad[0]),
                                       "%s/%s dim %d: value at a location depends on %s (max |d| = %.3g)" % (kind, cls, dim, bad[0], bad[1]), rp)
@@ -245,7 +245,7 @@ def periodicity(r, st, X, scale):
     return None
 
 
-def arrangements(r, f, X, dim, scale, vec):
+def arrangements(r, f, X, dim, scale, vec, kind, cls, want):
     """Same call evaluated in other arrangements (nugget-free state, seed kept)."""
     tol = 1e-12 * scale
     n = X.shape[1]
@@ -269,6 +269,15 @@ def arrangements(r, f, X, dim, scale, vec):
     g = g.reshape(f.shape)
     if np.max(np.abs(g - f)) > tol:
         return ("mesh type (structured)", float(np.max(np.abs(g - f))))
+    # consecutive requests on nearly equal positions (large coordinates, shift far below allclose's
+    # relative tolerance but larger than the correlation length) must each be answered at the points asked for
+    off = 6.5e5
+    near = (X + off, X + off + 3.0)
+    ref = [reference(kind, cls, dim, want, p, tag=i) for i, p in enumerate(near)]
+    got = [np.array(r.call(KEEP, p, store="near")) for p in near]
+    for a, b in zip(got, ref):
+        if np.max(np.abs(a - b)) > 1e-7 * scale:
+            return ("the positions requested before (nearly equal large coordinates)", float(np.max(np.abs(a - b))))
     if dim >= 2 and not vec:
         import meshio
 
